@@ -166,6 +166,16 @@ def decideVersion (index : Option VIdx) (thing : Option Thing) (op : Op) (major 
     else .unknown
   | _, _ => .unknown
 
+/-- consider_sys_version_info after proposed_fix_F4: inside `if 0 <= lo < hi <= 2:`, before the length test,
+    `if open_ended and val == thing: return fixed_comparison(1, op, 0)` — at run time an open-ended slice goes
+    on after (major, minor), so it is strictly longer than, hence greater than, an equal tuple. -/
+def decideVersionFix (index : Option VIdx) (thing : Option Thing) (op : Op) (major minor : Nat) : TV :=
+  match index, thing with
+  | some (.slice lo none), some (.tuple t) =>
+    if lo.getD 0 < 2 ∧ (natsToInts [major, minor]).drop (lo.getD 0) = natsToInts t then fixedCmpInt 1 op 0
+    else decideVersion index thing op major minor
+  | _, _ => decideVersion index thing op major minor
+
 /-- the operand pair actually used: as written, or swapped with the operator reversed -/
 def pickOperands (l : Operand) (op : Op) (r : Operand) : Option VIdx × Option Thing × Op :=
   match containsSysVersionInfo l, containsIntOrTupleOfInts r with
@@ -177,6 +187,10 @@ def considerSysVersionInfo (l : Operand) (op : Op) (r : Operand) (major minor : 
   let p := pickOperands l op r
   decideVersion p.1 p.2.1 p.2.2 major minor
 
+def considerSysVersionInfoFix (l : Operand) (op : Op) (r : Operand) (major minor : Nat) : TV :=
+  let p := pickOperands l op r
+  decideVersionFix p.1 p.2.1 p.2.2 major minor
+
 /-- `platform.startswith(prefix)` -/
 def pyStartsWith (s pre : String) : Bool := pre.toList.isPrefixOf s.toList
 def pyEndsWith (s suf : String) : Bool := suf.toList.isSuffixOf s.toList
@@ -187,6 +201,10 @@ structure Options where
   platform : String
   alwaysTrue : List String
   alwaysFalse : List String
+  /-- which consider_sys_version_info is in the tree: `true` = with the open-ended-slice rule of
+      harness/c12/proposed_fix_F4.diff (`decideVersionFix`), `false` = the code as it was (`decideVersion`).
+      translate/reach_tables.py determines it from the source on every check. -/
+  openSliceFix : Bool := false
 deriving Repr
 
 /-- consider_sys_platform -/
@@ -227,7 +245,9 @@ def andTable (l r : TV) : TV :=
 /-- a leaf: consider_sys_version_info, then consider_sys_platform -/
 def leafValue (c : Cond) (o : Options) : TV :=
   let v := match c with
-    | .cmp l op r => considerSysVersionInfo l op r o.major o.minor
+    | .cmp l op r =>
+      if o.openSliceFix then considerSysVersionInfoFix l op r o.major o.minor
+      else considerSysVersionInfo l op r o.major o.minor
     | _ => .unknown
   if v = .unknown then considerSysPlatform c o.platform else v
 
